@@ -522,9 +522,17 @@ class An(ResultQuantifier[T]):
     def evaluate(self) -> Iterable[TypingUnion[T, Dict[TypingUnion[T, SymbolicExpression[T]], T]]]:
         results = self._evaluate__()
         try:
-            with symbolic_mode(mode=None):
-                assert not in_symbolic_mode()
-                yield from map(self._process_result_, results)
+            while True:
+                # Symbolic mode is switched off only while the evaluation advances, not while this generator is
+                # suspended at the yield below, otherwise it would change the mode of the code consuming the results
+                # (and restore a stale mode whenever it is resumed or finalized somewhere else).
+                with symbolic_mode(mode=None):
+                    assert not in_symbolic_mode()
+                    try:
+                        result = self._process_result_(next(results))
+                    except StopIteration:
+                        break
+                yield result
         finally:
             # also when the iteration is abandoned or aborted by an exception, otherwise the next evaluation sees
             # stale state. The operand generators restore state when they exit, so finalize them first.
